@@ -3,6 +3,7 @@ module asherahverif
 go 1.23.0
 
 require (
+	github.com/awnumar/memcall v0.4.0
 	github.com/godaddy/asherah/go/appencryption v0.7.1
 	github.com/godaddy/asherah/go/securememory v0.1.6
 	github.com/godaddy/asherah/server/go v0.0.0
@@ -11,7 +12,6 @@ require (
 
 require (
 	filippo.io/edwards25519 v1.1.0 // indirect
-	github.com/awnumar/memcall v0.4.0 // indirect
 	github.com/awnumar/memguard v0.22.5 // indirect
 	github.com/aws/aws-sdk-go v1.55.6 // indirect
 	github.com/go-sql-driver/mysql v1.9.2 // indirect
